@@ -43,7 +43,7 @@ type history struct {
 	root         rate.Limiter
 	t0           time.Time
 	t1           time.Time // after rate.New returned: the ticker was started between t0 and t1
-	hidden       rate.Limiter // black-box build only: the capacity-0 parent of the sentinel limiters
+	hidden       rate.Limiter // black-box build only: the hidden capacity-1 sentinel child of the root
 	handles      []rate.Limiter
 	pending      []pend
 	period       time.Duration
@@ -149,7 +149,7 @@ func (h *history) op(f []string) string {
 		if h.rootClosed {
 			return "no-ticker"
 		}
-		ch := h.sentinel()
+		ch, after := h.sentinel()
 		if ch == nil || !h.inWindow() { // no way to observe the tick, or the sentinel may have missed its tick
 			h.inconclusive = true
 			return "inconclusive"
@@ -161,6 +161,9 @@ func (h *history) op(f []string) string {
 			return "tick-timeout"
 		}
 		h.root.Closed() // barrier: returns once the ticker goroutine has left its critical section
+		if after != nil {
+			after()
+		}
 		h.tickIdx++
 		if time.Now().After(h.fire(h.tickIdx).Add(h.period / 2)) {
 			h.inconclusive = true
@@ -276,7 +279,7 @@ func (h *history) window(early bool, ops []string) string {
 		return "bad-op"
 	}
 	wasOpen := !h.root.Closed()
-	sentinel := h.sentinel()
+	sentinel, _ := h.sentinel()
 	lockTree(h.root)
 	launch := func() {
 		for _, c := range calls {
@@ -432,6 +435,7 @@ func runHistory(lines []string) []string {
 				h.inconclusive = true
 			}
 			h.handles = []rate.Limiter{h.root}
+			h.setup()
 			out = append(out, "reset")
 			continue
 		}
